@@ -10,19 +10,22 @@ ThoroughSlices == <<
      [s \in {"api", "web"} |-> AllKinds \ {"bareonly", "barehosts", "udp80", "as8080", "svcglobal"}],
      {2}, [c \in {"large", "small"} |-> IF c = "large" THEN <<List(<<QLarge>>)>> ELSE <<List(<<QSmall>>)>>]),
   Sl("C", <<"api", "web">>, <<"large", "small">>, <<"east", "west">>,
-     [s \in {"api", "web"} |-> IF s = "web" THEN AllBodies ELSE NoneAll],
+     [s \in {"api", "web"} |-> IF s = "web" THEN {{}, {"command"}, {"args", "env"}, {"command", "args", "env"}} ELSE NoneAll],
      [s \in {"api", "web"} |-> IF s = "web" THEN {"none", "http", "two", "fan", "mix"} ELSE {"none", "httphosts", "local", "udp", "rev"}],
-     {1, 25}, [c \in {"large", "small"} |-> IF c = "large" THEN <<List(<<QLarge>>)>> ELSE <<List(<<QOdd>>)>>]),
+     {1, 7}, [c \in {"large", "small"} |-> IF c = "large" THEN <<List(<<QLarge>>)>> ELSE <<List(<<QOdd>>)>>]),
   \* three services, three placements
   Sl("E", <<"api", "db", "web">>, <<"large", "small">>, <<"east", "north", "west">>,
      [s \in {"api", "db", "web"} |-> IF s = "db" THEN NoneAll ELSE {{"command", "args", "env"}}],
      [s \in {"api", "db", "web"} |-> IF s = "web" THEN {"two"} ELSE IF s = "db" THEN {"local", "none"} ELSE {"udp"}],
      {1}, [c \in {"large", "small"} |-> IF c = "large" THEN <<List(<<QLarge>>)>> ELSE <<List(<<QSmall>>)>>]),
-  \* every CPU amount with at most three decimals from 0.009 to 10.001, in both decimal spellings and as millis;
-  \* memory n.t G (n 0..17), n.t M (1..2000), n.t k (1040..2040); storage n.t G (0..1100), n.t M (4..2000), n.t T (0..1)
-  UnitsSlice("D", << CpuEdge, CpuFam("dec", 9, 10001), CpuFam("dec3", 9, 10001), CpuFam("m", 9, 10001),
-                     MemForms, MemFam("G", 0, 17), MemFam("M", 1, 2000), MemFam("k", 1040, 2040),
-                     StorageForms, StorageFam("G", 0, 1100), StorageFam("M", 4, 2000), StorageFam("T", 0, 1), AttrForms >>) >>
+  \* every CPU amount with at most three decimals from 0.009 to 10.001 (shortest spelling), 1.000..3.000 with three
+  \* digits, 9m..1200m; memory n.t G (n 0..17), n.t M (1..600), n.t k (1040..1400); storage n.t G (0..1100),
+  \* n.t M (4..600), n.t T (0..1)
+  UnitsSlice("D", << CpuEdge, CpuFam("dec", 9, 10001), CpuFam("dec3", 1000, 3000), CpuFam("m", 9, 1200),
+                     MemForms, MemFam("G", 0, 17), MemFam("M", 1, 600), MemFam("k", 1040, 1400),
+                     StorageForms, StorageFam("G", 0, 1100), StorageFam("M", 4, 600), StorageFam("T", 0, 1), AttrForms >>),
+  \* S: seeded sample of the large structural space
+  BigSlice("S", Samples) >>
 
 ASSUME ExportDocs(Slices)
 =============================================================================
